@@ -39,7 +39,7 @@ Theorem C17_paging_exact :
     forall fuel m next limit call c acc lo0,
       sorted_from lo0 m -> 0 <= next -> J c next -> 1 <= limit ->
       (length (todo m next) + Z.to_nat (Z.log2 limit) < fuel)%nat ->
-      let res := page_loop fails cb min_limit fuel m next limit call c acc in
+      let res := page_loop fails cb no_rw min_limit fuel m next limit call c acc in
       fst (fst (fst res)) <> RDiverged /\
       (fst (fst (fst res)) = RDone ->
          snd (fst (fst res)) = acc ++ todo m next /\ (snd (fst res), snd res) = final cb m c (todo m next)) /\
@@ -151,6 +151,39 @@ Theorem C17_prune_operation :
       (batch s = [] -> batch (fst (run_op s OLoadIntoCache)) = []).
 Proof. exact prune_op_pf. Qed.
 
+(* Loading over a WARM cache (a member elected again without a restart, a follower following a new leader): a record that
+   the cache rejects as stale while it holds a region of the same id shares its key with the live region — the load
+   callback (BasicCluster.CheckAndPutLoadedRegion, fix in /repo) rewrites it from the cache and deletes nothing. Before
+   the fix the key was deleted and the served region had no record at all (Example C17_reelected_leader below is the
+   audit's history). *)
+Theorem C17_stale_record_is_rewritten :
+  forall (m : amap rv) (c : cache) k v v' nx,
+    sorted_from 0 m -> accepts c (k, v) = false -> find_id c k = Some v' ->
+    let r := step_item put_loaded rw_loaded (m, c, nx) (k, v) in
+    snd (fst r) = c /\ lookup (fst (fst r)) k = Some v' /\ forall j, j <> k -> lookup (fst (fst r)) j = lookup m j.
+Proof. exact stale_record_is_rewritten_pf. Qed.
+
+(* on a cold cache (no region of that id yet) and for accepted records the callback is CheckAndPutRegion, so the cold-start
+   theorems above speak about it too *)
+Theorem C17_loaded_callback_cold :
+  forall c r, find_id c (fst r) = None \/ accepts c r = true -> put_loaded c r = check_and_put c r /\ rw_loaded c r = None.
+Proof. intros c r [H|H]; [exact (put_loaded_cold c r H)|exact (put_loaded_accepted c r H)]. Qed.
+
+(* stated, not proved (checks/C17.json "todo"): after a load over ANY warm cache every record left in storage describes
+   the cached region of its id, and every cached region that had a record still has one. (The callback may now delete ids
+   ahead of the scan, so the outcome depends on the paging; the correspondence cases and the monitor cover it.) *)
+Definition C17_warm_load_todo : Prop :=
+  forall (m : amap rv) (c0 : cache), sorted_from 0 m -> disjoint c0 -> ids_distinct c0 ->
+    let res := page_loop never_fails put_loaded rw_loaded region_limit_min (fuel_for m region_limit0) m 0 region_limit0 O c0 [] in
+    (forall id v, lookup (snd (fst res)) id = Some v -> In (id, v) (snd res)) /\
+    (forall id v, In (id, v) (snd res) -> lookup m id <> None -> lookup (snd (fst res)) id = Some v).
+
+Example C17_reelected_leader :
+  let r1 := RV 0 100 5 5 30 in let r1' := RV 0 100 6 5 30 in let r2 := RV 100 0 5 5 30 in
+  let ops := [OSaveRegion 1 r1; OSaveRegion 2 r2; OSaveRegionF 1 r1' false; OLoadWarm [(1, r1'); (2, r2)]] in
+  last (run run_op sinit ops) BUnit = BCache RDone [(1, r1); (2, r2)] [(1, r1'); (2, r2)] [(1, r1'); (2, r2)].
+Proof. exact reelected_leader_example. Qed.
+
 (* non-vacuity, and the former refutation witnesses, which now behave *)
 Example C17_nonvacuous :
   let ops := [OSaveStore 3 30; OSaveStore 1 10; OSaveWeight 1 2000 500; OSaveStore 2 20; ODeleteStore 2; OLoadStores] in
@@ -186,4 +219,6 @@ Print Assumptions C17_crash_keeps_flushed.
 Print Assumptions C17_load_once_retry.
 Print Assumptions C17_crash_in_flush_atomic.
 Print Assumptions C17_load_prunes_to_cache.
+Print Assumptions C17_stale_record_is_rewritten.
+Print Assumptions C17_loaded_callback_cold.
 Print Assumptions C17_prune_operation.
